@@ -11,7 +11,7 @@ from ..peval import Evaluator, Model, Unsupported, RaisedInModel
 from ..source import FuncInfo, norm, SourceTree
 from .common import params
 
-EXPLANATION = "(R1) every write inside a prange body of plot/utils.py classified: no shared read-modify-write (private histograms reduced after the loop), batch mode followed over several thread counts; (R2) kernel index logic over all orderings of a coordinate against the bin edges; (R5) histogram2d/_parse_limit/finmin/finmax interpreted over token Arrays with symbolic numpy values: explicit limits converted to the axis unit and log10'd on log axes, a missing limit is the FINITE min/max and the automatic range strictly contains the data; (R6) axis separation, default layer = ones, one kernel slot per layer, mean = slot/counts, mask = (counts == 0). Automatic limits are folded under both assumptions about NaNs in the data (an unfiltered minimum is exposed when only infinities are present); the kernel fold inlines helpers, follows per-thread accumulator views and runs both sides of a size threshold for every thread count. (R7) Vector inputs are binned by a norm that is total (rows of exact zeros give 0, not nan); flat accumulators reshaped on return are read back in (ny, nx). R2 also requires accumulators typed independently of the input (float64); R5 covers explicit limits equal to 0."
+EXPLANATION = "(R1) every write inside a prange body of plot/utils.py classified: no shared read-modify-write (private histograms reduced after the loop), batch mode followed over several thread counts; (R2) kernel index logic over all orderings of a coordinate against the bin edges; (R5) histogram2d/_parse_limit/finmin/finmax interpreted over token Arrays with symbolic numpy values: explicit limits converted to the axis unit and log10'd on log axes, a missing limit is the FINITE min/max and the automatic range strictly contains the data; (R6) axis separation, default layer = ones, one kernel slot per layer, mean = slot/counts, mask = (counts == 0). Automatic limits are folded under both assumptions about NaNs in the data (an unfiltered minimum is exposed when only infinities are present); the kernel fold inlines helpers, follows per-thread accumulator views and runs both sides of a size threshold for every thread count. (R7) Vector inputs are binned by a norm that is total (rows of exact zeros give 0, not nan); flat accumulators reshaped on return are read back in (ny, nx). R2 also requires accumulators typed independently of the input (float64); R5 covers explicit limits equal to 0. The same Array object may appear in several layers (each keeps its slot and reduction); a test on a layer value inside the kernel (np.isnan) is explored both ways: the point is binned either way."
 NOT_DECIDED = 'floating-point edge effects at bin boundaries; numba scheduling (covered by the write classification, not by execution)'
 TRUSTED = ('CPython ast', 'numba prange semantics', 'the interpreter sa/models.py and sa/symnp.py')
 TECHNIQUE = 'static analysis: parallel-loop write classification, finite ordering tables, abstract interpretation of histogram2d over symbolic numpy values'
